@@ -450,7 +450,12 @@ func handleDownload(c *Client, r *Response) (err error) {
 	} else if r.Err != nil {
 		// an earlier stage failed without leaving a body (a failed read or body transformer has
 		// consumed and closed r.Body): copying it would only replace that stage's error by
-		// "read on closed response body"
+		// "read on closed response body". A stage that failed without touching the body (digest
+		// auth refusing the challenge) has left it open, and nobody else closes the body of a
+		// download: release it (closing a closed body is harmless)
+		if r.Body != nil {
+			r.Body.Close()
+		}
 		return nil
 	} else {
 		body = r.Body
